@@ -545,12 +545,6 @@ func genBlob(t *rapid.T, p *pools, cookies [2]uint32, allowEmpty bool, m *machin
 			}
 			return b
 		}
-		if vlib.Known(findUnchangedMeta) && b.cookie == e.blob.cookie {
-			// same data + same cookie + other metadata is the listed finding: keep the metadata
-			vlib.Excluded(findUnchangedMeta)
-			*b = blob{cookie: b.cookie, data: b.data, dtag: b.dtag, flags: e.blob.flags, name: e.blob.name, mime: e.blob.mime, pairs: e.blob.pairs, lm: e.blob.lm, ttl: e.blob.ttl}
-			return b
-		}
 	default:
 		pick := rapid.IntRange(0, 9).Draw(t, "data")
 		switch {
@@ -594,6 +588,14 @@ func genBlob(t *rapid.T, p *pools, cookies [2]uint32, allowEmpty bool, m *machin
 	if rapid.IntRange(0, 5).Draw(t, "ttl") == 0 {
 		b.flags |= fTTL
 		b.ttl = rapid.SampledFrom([][2]byte{{2, needle.Hour}, {1, needle.Year}, {255, needle.Day}}).Draw(t, "ttlValue")
+	}
+	if vlib.Known(findUnchangedMeta) && e.state == live && len(b.data) > 0 && b.cookie == e.blob.cookie &&
+		bytes.Equal(b.data, e.blob.data) && metaDiff(b, stored(e.blob)) != "" {
+		// same data + same cookie as the stored blob but other metadata is exactly the
+		// listed finding: keep the stored metadata (last-modified stays as drawn)
+		vlib.Excluded(findUnchangedMeta)
+		b.flags = e.blob.flags&^fLM | b.flags&fLM
+		b.name, b.mime, b.pairs, b.ttl = e.blob.name, e.blob.mime, e.blob.pairs, e.blob.ttl
 	}
 	return b
 }
